@@ -361,7 +361,66 @@ class ProgramModel:
             v = self._module_const(self.classes[owner].module, expr.id)
             if v is not None:
                 return self.eval_str_list(cn, owner, v, prop)
+        if isinstance(expr, ast.ListComp) and len(expr.generators) == 1 and isinstance(expr.elt, ast.Name) \
+                and isinstance(expr.generators[0].target, ast.Name) and expr.elt.id == expr.generators[0].target.id:
+            # [a for a in <names> if <the class has a method derived from a>]: decidable on the class table
+            g = expr.generators[0]
+            base = self.eval_str_list(cn, owner, g.iter, prop)
+            out = []
+            for a in base:
+                keep = True
+                for t in g.ifs:
+                    r = self._eval_name_filter(cn, t, g.target.id, a)
+                    if r is None:
+                        raise AnalysisError(f"{owner}.{prop}: filter `{ast.unparse(t)[:60]}` is not decidable on the class table")
+                    keep = keep and r
+                if keep:
+                    out.append(a)
+            return out
         raise AnalysisError(f"{owner}.{prop}: cannot reduce {ast.unparse(expr)[:80]} to a list of string literals")
+
+    def _eval_name_filter(self, cn, t, var, value):
+        """truth of `hasattr(self, f"update_{var}")` / `getattr(self, f"…{var}…", None) is not None` / `var in <names>`
+        for var == value on class cn; None when not decidable"""
+        def fmt(e):
+            if isinstance(e, ast.JoinedStr):
+                parts = []
+                for v in e.values:
+                    if isinstance(v, ast.Constant):
+                        parts.append(str(v.value))
+                    elif isinstance(v, ast.FormattedValue) and isinstance(v.value, ast.Name) and v.value.id == var:
+                        parts.append(value)
+                    else:
+                        return None
+                return "".join(parts)
+            if isinstance(e, ast.BinOp) and isinstance(e.op, ast.Add):
+                l, r = fmt(e.left), fmt(e.right)
+                return None if l is None or r is None else l + r
+            if isinstance(e, ast.Constant) and isinstance(e.value, str):
+                return e.value
+            if isinstance(e, ast.Name) and e.id == var:
+                return value
+            return None
+
+        def has(name):
+            return any(isinstance(n, ast.FunctionDef) and n.name == name for k in self.mro(cn) for n in self.classes[k].node.body)
+        if isinstance(t, ast.UnaryOp) and isinstance(t.op, ast.Not):
+            r = self._eval_name_filter(cn, t.operand, var, value)
+            return None if r is None else not r
+        if isinstance(t, ast.Call) and isinstance(t.func, ast.Name) and t.func.id == "hasattr" and len(t.args) == 2 \
+                and isinstance(t.args[0], ast.Name) and t.args[0].id in ("self", "cls"):
+            nm = fmt(t.args[1])
+            return None if nm is None else has(nm)
+        if isinstance(t, ast.Compare) and len(t.ops) == 1 and isinstance(t.ops[0], (ast.IsNot, ast.Is)) \
+                and isinstance(t.comparators[0], ast.Constant) and t.comparators[0].value is None \
+                and isinstance(t.left, ast.Call) and isinstance(t.left.func, ast.Name) and t.left.func.id == "getattr" \
+                and len(t.left.args) == 3 and isinstance(t.left.args[2], ast.Constant) and t.left.args[2].value is None \
+                and isinstance(t.left.args[0], ast.Name) and t.left.args[0].id in ("self", "cls"):
+            nm = fmt(t.left.args[1])
+            if nm is None:
+                return None
+            return has(nm) if isinstance(t.ops[0], ast.IsNot) else not has(nm)
+        return None
 
     def eval_prop_str_list(self, cn, owner, f):
         rets = [s for s in ast.walk(f) if isinstance(s, ast.Return)]
